@@ -35,6 +35,27 @@ class SymBothUD(UnDirectedEdge, DirectedEdge):
     """... undirected first"""
 class SymVert(Vertex): pass
 class SymUni(Universe): pass
+class GrumpyVert(Vertex):
+    """a user vertex class whose repr() / str() / format() raise (e.g. they read an attribute that is assigned later); == and hash are the default"""
+    def __repr__(self):
+        raise RuntimeError("repr() of an object that is not ready to be shown")
+    __str__ = __repr__
+    def __format__(self, spec):
+        raise RuntimeError("format() of an object that is not ready to be shown")
+class GrumpyTwo(TwoEndedLink):
+    """a link of a user two-ended type (neither directed nor undirected) whose repr() / str() / format() raise"""
+    def __repr__(self):
+        raise RuntimeError("repr() of an object that is not ready to be shown")
+    __str__ = __repr__
+    def __format__(self, spec):
+        raise RuntimeError("format() of an object that is not ready to be shown")
+class ClusterVert(Vertex):
+    """a user vertex class that can be iterated (a cluster yielding its member vertices) - still one vertex"""
+    members = ()
+    def __iter__(self):
+        return iter(self.members)
+    def __len__(self):
+        return len(self.members)
 class RevLinksVert(Vertex):
     """a user vertex class that overrides the public `links` accessor: it presents its links in the opposite order"""
     @property
